@@ -57,10 +57,14 @@ def cpython(text, filename='answer.py'):
         return None, e
 
 
-def judge(ctx, text, offset=0, where='whole file', do_verify=None):
+def judge(ctx, text, offset=0, where='whole file', do_verify=None, report=None):
     """Run verify() on the current submission (already contextualised) and compare."""
     tree, err = cpython(text)
-    before = len(MAIN_REPORT.feedback)
+    global_before = len(MAIN_REPORT.feedback)
+    MAIN = MAIN_REPORT
+    if report is not None:
+        MAIN = report
+    before = len(MAIN.feedback)
     ctx.step('verify')
     try:
         r = (do_verify or verify)()
@@ -73,7 +77,9 @@ def judge(ctx, text, offset=0, where='whole file', do_verify=None):
                  text=text, message=str(e)[:200], at='%s:%s' % (tb.filename.split('/pedal/')[-1], tb.lineno))
         ctx.outcome('raised')
         return
-    new = MAIN_REPORT.feedback[before:]
+    new = MAIN.feedback[before:]
+    if report is not None and len(MAIN_REPORT.feedback) != global_before:
+        ctx.fail({'symptom': 'verify(report=own) attached feedback to the global report'}, text=text)
     syn = [f for f in new if f.category == 'syntax' and f.label in ('syntax_error', 'indentation_error')]
     blank = [f for f in new if f.label == 'blank_source']
     sig = None
@@ -89,7 +95,7 @@ def judge(ctx, text, offset=0, where='whole file', do_verify=None):
         detail = {'expected': err.lineno + offset, 'got': syn[0].location.line if syn[0].location else None}
     elif text.strip(' \t\n\r\x0c\x0b') == '' and not blank:
         sig = {'symptom': 'blank source not reported'}
-    elif err is None and ast.dump(MAIN_REPORT['source']['ast']) != ast.dump(tree):
+    elif err is None and ast.dump(MAIN['source']['ast']) != ast.dump(tree):
         sig = {'symptom': 'stored tree differs from CPython'}
     elif err is None and r is not True and not blank:
         sig = {'symptom': 'verify() returned falsy for accepted text'}
@@ -125,7 +131,8 @@ OTHERS = {'valid': "other = 1\nprint(other)\n", 'broken': "other = (\n", 'blank'
 def make_entries(max_len):
     """The same judgement through every way a text reaches the parser: verify() on the loaded submission,
     verify(text) given explicitly while another submission (valid, broken or blank) is loaded, set_source(text)."""
-    entries = ['verify()', 'verify(text)|valid', 'verify(text)|broken', 'verify(text)|blank', 'set_source(text)']
+    entries = ['verify()', 'verify(text)|valid', 'verify(text)|broken', 'verify(text)|blank', 'set_source(text)',
+               'verify(report=own)', 'set_source(text, report=own)']
 
     def body(ctx):
         entry = entries[ctx.choose(len(entries), 'entry')]
@@ -137,6 +144,18 @@ def make_entries(max_len):
         if entry == 'verify()':
             cmds.contextualize_report(text)
             judge(ctx, text, where=entry)
+        elif entry.endswith('report=own)'):
+            # a Report of the caller's own, while the global report holds another (broken) submission
+            from pedal.core.report import Report
+            from pedal.source import set_source
+            cmds.contextualize_report(OTHERS['broken'])
+            mine = Report()
+            if entry.startswith('verify'):
+                cmds.contextualize_report(text, report=mine)
+                judge(ctx, text, where=entry, do_verify=lambda: verify(report=mine), report=mine)
+            else:
+                judge(ctx, text, where=entry, report=mine,
+                      do_verify=lambda: set_source(text, report=mine) or mine['source']['success'])
         elif entry == 'set_source(text)':
             from pedal.source import set_source
             cmds.contextualize_report(OTHERS['valid'])
